@@ -40,6 +40,14 @@ theorem textinput_models_agree_inv {A : Type} (isAlnum : List A → Bool) (m m' 
   rw [hi.2]
   exact allSingle_singletons _
 
+/-- **All histories**: from any state with the cursor in the content and single-atom characters, the two models run
+on the same event sequence end in the same state (or both panic at the same event). -/
+theorem textinput_models_agree_run {A : Type} (isAlnum : List A → Bool) (m : VaxisModel.Model.TextInputCl.TIC A)
+    (h : TIInv (VaxisModel.Model.TextInputCl.toG m)) (hs : AllSingle m.content)
+    (evs : List (VaxisModel.Model.TextInputCl.Ev A)) :
+    runCl isAlnum m evs = (runG isAlnum (gOf m) (evs.map evOf)).map cOf :=
+  runs_agree isAlnum evs m h hs
+
 /-- Non-vacuity: "ab|" + typed "c" in both models. -/
 example : VaxisModel.Model.TextInputCl.update singletons (fun _ => true) ⟨[[0], [1]], 2, 0, []⟩ (.key "c" false false false [2]) =
     some ⟨[[0], [1], [2]], 3, 0, []⟩ := by decide
